@@ -101,7 +101,8 @@ impl Default for Opts {
 }
 
 pub fn scratch_root() -> std::path::PathBuf {
-    let base = std::env::var("VERIF_SCRATCH").unwrap_or_else(|_| format!("/dev/shm/zv-{}", std::process::id()));
+    // fixed-length names: some records embed absolute paths and their lengths must be comparable across processes
+    let base = std::env::var("VERIF_SCRATCH").unwrap_or_else(|_| format!("/dev/shm/zv-{:08}-w99", std::process::id()));
     std::path::PathBuf::from(base)
 }
 
